@@ -139,3 +139,39 @@ package annotations
 //@ func HasConflictingEnumAnnotations(field *protogen.Field) (r bool)
 //@   pure
 //@   ensures r == !spec.Rule_enum(field)
+
+//@ func HasFlattenFields(message *protogen.Message) (r bool)
+//@   pure
+//@   ensures r == spec.hasFlatten(message)
+//@   loop 1 invariant forall k int :: 0 <= k && k < _i ==> !spec.flattenAnno(message.Fields[k])
+
+//@ func ValidateFlattenCollisions(message *protogen.Message) (err error)
+//@   pure
+//@   assume-contract
+//@   ensures (err == nil) <==> spec.CollisionFree(message)
+
+//@ func GetOneofConfig(oneof *protogen.Oneof) (r *sebufhttp.OneofConfig)
+//@   pure
+//@   existing
+
+//@ func validateDiscriminatorNameCollision(message *protogen.Message, oneof *protogen.Oneof, discriminator string) (err error)
+//@   pure
+//@   ensures iff: (err == nil) <==> spec.noDiscCollision(message, oneof, discriminator)
+//@   loop 1 invariant forall k int :: 0 <= k && k < _i && message.Fields[k].Oneof != oneof ==> message.Fields[k].Desc.JSONName() != discriminator
+
+//@ func buildReservedNames(message *protogen.Message, oneof *protogen.Oneof, discriminator string) (r map[string]string)
+//@   pure
+//@   ensures forall s string :: inDom(r, s) <==> spec.reservedName(message, oneof, discriminator, s)
+//@   loop 1 invariant forall s string :: inDom(reserved, s) <==> (s == discriminator || (exists k int :: 0 <= k && k < _i && message.Fields[k].Oneof != oneof && message.Fields[k].Desc.JSONName() == s))
+
+//@ func validateOneofFlatten(message *protogen.Message, oneof *protogen.Oneof, discriminator string) (err error)
+//@   pure
+//@   ensures iff: (err == nil) <==> (spec.variantsAreMessages(oneof) && spec.allVariantChildrenOK(message, oneof, discriminator))
+//@   loop 1 invariant forall a int :: 0 <= a && a < _i1 ==> oneof.Fields[a].Message != nil
+//@   loop 2 invariant forall a int :: 0 <= a && a < _i2 ==> spec.variantChildrenOK(message, oneof, discriminator, oneof.Fields[a])
+//@   loop 3 invariant forall b int :: 0 <= b && b < _i3 ==> !spec.reservedName(message, oneof, discriminator, variantField.Message.Fields[b].Desc.JSONName())
+
+//@ func ValidateOneofDiscriminator(message *protogen.Message, oneof *protogen.Oneof, config *sebufhttp.OneofConfig) (err error)
+//@   pure
+//@   requires config != nil
+//@   ensures iff: (err == nil) <==> spec.OneofRule(message, oneof, config.Discriminator, config.Flatten)
